@@ -1,0 +1,70 @@
+//go:build verif
+
+package s2
+
+// Export hooks for the C09 (encoding round trip) verification harness.
+// Compiled only with the build tag "verif"; thin wrappers, no behaviour.
+
+import (
+	"bytes"
+
+	"github.com/golang/geo/r3"
+)
+
+// VerifLoopDepth exposes Loop.depth.
+func VerifLoopDepth(l *Loop) int { return l.depth }
+
+// VerifPolygonHasHoles exposes Polygon.hasHoles.
+func VerifPolygonHasHoles(p *Polygon) bool { return p.hasHoles }
+
+// VerifPolygonNumVertices exposes Polygon.numVertices.
+func VerifPolygonNumVertices(p *Polygon) int { return p.numVertices }
+
+// VerifZigzag exposes zigzagEncode / zigzagDecode.
+func VerifZigzagEncode(x int32) uint32 { return zigzagEncode(x) }
+func VerifZigzagDecode(x uint32) int32 { return zigzagDecode(x) }
+
+// VerifInterleave exposes interleaveUint32 / deinterleaveUint32.
+func VerifInterleave(x, y uint32) uint64          { return interleaveUint32(x, y) }
+func VerifDeinterleave(c uint64) (uint32, uint32) { return deinterleaveUint32(c) }
+func VerifSiTiToPiQi(si uint32, level int) uint32 { return siTitoPiQi(si, level) }
+func VerifPiQiToST(pi uint32, level int) float64  { return piQiToST(pi, level) }
+func VerifFacePiQiToXYZ(f int, pi, qi uint32, level int) r3.Vector {
+	return facePiQitoXYZ(f, pi, qi, level)
+}
+
+// VerifNthDerivative runs a fresh coder of order n over ks (encode or decode).
+func VerifNthDerivative(n int, enc bool, ks []int32) []int32 {
+	c := newNthDerivativeCoder(n)
+	out := make([]int32, len(ks))
+	for i, k := range ks {
+		if enc {
+			out[i] = c.encode(k)
+		} else {
+			out[i] = c.decode(k)
+		}
+	}
+	return out
+}
+
+// VerifEncodePointsCompressed runs xyzToFaceSiTi + encodePointsCompressed.
+func VerifEncodePointsCompressed(pts []Point, level int) ([]byte, error) {
+	vs := make([]xyzFaceSiTi, len(pts))
+	for i, v := range pts {
+		vs[i].xyz = v
+		vs[i].face, vs[i].si, vs[i].ti, vs[i].level = xyzToFaceSiTi(v)
+	}
+	var buf bytes.Buffer
+	e := &encoder{w: &buf}
+	encodePointsCompressed(e, vs, level)
+	return buf.Bytes(), e.err
+}
+
+// VerifDecodePointsCompressed runs decodePointsCompressed on n points.
+func VerifDecodePointsCompressed(b []byte, level, n int) ([]Point, int, error) {
+	r := bytes.NewReader(b)
+	d := &decoder{r: asByteReader(r)}
+	target := make([]Point, n)
+	decodePointsCompressed(d, level, target)
+	return target, r.Len(), d.err
+}
